@@ -87,11 +87,9 @@ class Creators:
         gfa_line = gfapy.Line(gfa_line, dialect=self._dialect)
       gfa_line.connect(self)
     elif rt == "H":
-      self._n_input_header_lines += 1
       if isinstance(gfa_line, str):
         gfa_line = gfapy.Line(gfa_line, vlevel=self._vlevel,
             dialect=self._dialect)
-      self.header._merge(gfa_line)
       if gfa_line.VN:
         if gfa_line.VN == "1.0":
           self._version = "gfa1"
@@ -101,7 +99,16 @@ class Creators:
           self._version = gfa_line.VN
         self._version_explanation = "specified in header VN tag"
         if self._vlevel > 0:
-          self._validate_version()
+          try:
+            self._validate_version()
+          except gfapy.VersionError:
+            # the line is refused: do not keep the version it asked for
+            self._version = None
+            self._version_explanation = None
+            raise
+      self._n_input_header_lines += 1
+      self.header._merge(gfa_line)
+      if gfa_line.VN:
         self.process_line_queue()
     elif rt == "S":
       if isinstance(gfa_line, str):
